@@ -1,6 +1,7 @@
 package types
 
 import (
+	"github.com/ontio/ontology-crypto/keypair"
 	"github.com/ontio/ontology/common"
 )
 
@@ -148,4 +149,41 @@ func Harness_C20_block_root_binds() {
 			assert(bytesEq(t1[i], t2[i]), "same-root-same-transactions-in-order")
 		}
 	}
+}
+
+// Harness_C20_header_keys: headers that carry bookkeeper keys (ideal keys, 4-byte blobs): an accepted header
+// re-encodes to the same bytes.
+func Harness_C20_header_keys() {
+	b := nondetBytes("fixed", c20Fixed)
+	b = append(b, 0) // empty consensus payload
+	b = append(b, nondetBytes("next", 20)...)
+	nk := 1 + nondetRange("nkeys", 2)
+	b = append(b, byte(nk))
+	canonical := true
+	for i := 0; i < nk; i++ {
+		blob := nondetBytes("keyblob", 4)
+		b = append(b, 4)
+		b = append(b, blob...)
+		if k, err := keypair.DeserializePublicKey(blob); err == nil {
+			canonical = and(canonical, bytesEq(keypair.SerializePublicKey(k), blob))
+		}
+	}
+	b = append(b, 0) // no signatures
+	inKF := knownFinding("C20-noncanonical-bookkeeper-key-reencoded", !canonical)
+	_ = inKF
+	h, err := HeaderFromRawBytes(b)
+	if err != nil {
+		return
+	}
+	cover("accepted")
+	out := h.ToArray()
+	assert(len(out) == len(b), "header-with-keys-reencode-length")
+	if len(out) == len(b) {
+		assert(bytesEq(out, b), "header-with-keys-reencodes-to-same-bytes")
+	}
+	// the hash does not cover the key list
+	h2 := *h
+	h2.Bookkeepers = nil
+	h2.hash = nil
+	assert(h.Hash() == h2.Hash(), "hash-does-not-cover-bookkeepers")
 }
